@@ -62,6 +62,8 @@ bool      g_cancel_finishes; /* provider cancel function completes the aio with 
 bool      g_race;         /* while the lock is dropped for g_a0's cancel call: g_a1 completes normally and is started again */
 bool      g_race_done;
 nng_duration g_race_timeout; /* timeout of the operation started in the race */
+bool      g_in_cancel;    /* inside the provider cancel function */
+size_t    g_passes;       /* completed scan passes of the expire thread */
 size_t    g_eq_sleeps;    /* nni_cv_until calls on the expire cv */
 uint32_t  g_random;
 size_t    g_reaped;
